@@ -35,4 +35,103 @@ CLAIMED["C16"] = {
                  "differential correspondence KV/SQL/model",
 }
 
+_CHAN_NOTE = ("Trusted: Coq kernel, Go harness (harness-owned FIFOs over two real LightningChannels from "
+              "CreateTestChannels, all 7 channel types), python driver. The channel is modelled at cut level (two "
+              "update logs + declarative commit_of); lnwallet's incremental add/remove-height bookkeeping, log "
+              "compaction, transaction/script/sighash construction and signatures are NOT modelled: they are tied by "
+              "the per-step differential correspondence and by the real code signing and verifying every commitment "
+              "and HTLC signature in the harness. Hypotheses stated in the theorems: removals only for locked-in "
+              "HTLCs (BOLT-2), and for C03 the link discipline (no revoke_and_ack processed while a received "
+              "commitment awaits revocation; refuted without it). Aux/custom channels outside the model.")
+
+CLAIMED["C01"] = {
+    "design_ref": "DESIGN.md §4 C01, notes/C01-proofs.md",
+    "text": "Coq theorems over EVERY asynchronous schedule of sends, signs, revokes and in-order deliveries between "
+            "two parties (two-party invariant Inv proved inductive, incl. lnd's in-place fee-update merging): every "
+            "commitment held or in flight conserves value to the msat (balances + HTLCs + fee + anchors = capacity; "
+            "outputs + fee <= capacity), balances move only by HTLC amounts (fee on the opener), every commitment "
+            "signature in flight is accepted because the receiver derives the identical descriptor (agreement), "
+            "mirror images at quiescence, at most one unacked commitment, cuts always well-formed (a sign can only be "
+            "refused for balance/fee reasons). Model tied to lnwallet by replaying seeded schedules on two real "
+            "channels and comparing all four commitments + log counters of both sides after every step, plus "
+            "model-independent predicates (conservation, mirror, agreement, no sig_invalid) on the real dumps.",
+    "note": _CHAN_NOTE,
+    "technique": "Coq proof (two-party inductive invariant over all interleavings, cut algebra) + per-step "
+                 "differential correspondence on real channels + implementation-side predicates",
+}
+CLAIMED["C02"] = {
+    "design_ref": "DESIGN.md §4 C02, notes/C01-proofs.md",
+    "text": "Coq theorems: restore (what NewLightningChannel rebuilds) is idempotent, keeps all signature-covered "
+            "commitments with their cuts inside the kept logs and commit_of over the kept logs reproduces them exactly; "
+            "the commitment a restarted node would broadcast (local tail) only ever advances, by exactly one per "
+            "revocation, and restore never lowers it (never a revoked one); continuation after restart is C03. Tied "
+            "to the real code by re-opening each side from its DB after every step (pure observation) and at every "
+            "reconnect, comparing the reloaded projection with restore(model), plus predicates (reload consistent, "
+            "release rule: every released secret's height < durable local height, no gaps/repeats). Two genuine "
+            "defects found by this check were repaired in /repo (fixed: C02-F1, C02-F2).",
+    "note": _CHAN_NOTE + " channeldb serialisation is exercised by the reloads, not modelled byte-for-byte; bbolt only "
+            "(sqlite-kvdb not run).",
+    "technique": "Coq proof (restore refinement lemmas, monotone tail) + reload-at-every-step differential "
+                 "correspondence + implementation-side predicates",
+}
+CLAIMED["C03"] = {
+    "design_ref": "DESIGN.md §4 C03, notes/C01-proofs.md",
+    "text": "Coq theorems over every disciplined schedule with any number of disconnects (any delivered prefix per "
+            "direction, both sides restart, channel_reestablish ladders of ProcessChanSyncMsg incl. LastWasRevoke "
+            "ordering and the re-sign-after-revocation edge): a reconnect never reports (false) data loss — proved "
+            "even for free schedules —, after a successful reconnect the C01 invariant holds again so every "
+            "retransmitted signature is accepted and conservation/mirror continue to hold, a refused reconnect is a "
+            "pure balance/fee refusal; without the link discipline the property is refuted by a Coq witness that the "
+            "real code reproduces (corpus/chan/free_rev_resync.json). Tied by seeded schedules with cuts on real "
+            "channels (retransmitted message kinds and all commitments compared with the model after each reconnect).",
+    "note": _CHAN_NOTE,
+    "technique": "Coq proof (invariant XInv preserved by the reconnect step; refutation witness) + differential "
+                 "correspondence with cuts on real channels",
+}
+CLAIMED["C09"] = {
+    "design_ref": "DESIGN.md §4 C09, notes/C09.md",
+    "text": "Coq theorems: on an explicit realistic domain D (amounts <= 2^42 msat, rates <= 100%, |inbound rate| <= "
+            "100%, heights < 2^31) the link's fixed-width decision (uint64/int64/uint32 with wrap, truncating "
+            "division, check order) equals the unbounded rule; accept <=> every clause (no loss, fee incl. signed "
+            "inbound fee, min/max, expiry window, bandwidth, cltv delta <= max), every rejection names a violated rule "
+            "and carries the right value; same for CheckHtlcTransit; the switch forwards only over an eligible link "
+            "whose check returned nil. Witness theorems show the verdict flips outside D (uint32 height wrap; int64 "
+            "overflow in CalcFee at |rate| = 10^7 and >= 9.2 BTC). Model tied to htlcswitch/link.go, "
+            "graph/db/models/inbound_fee.go and switch.go by ~69k (quick) / ~430k (thorough) differential cases on "
+            "real channelLinks incl. exhaustive small universes, boundary +-1 at every comparison and overflow "
+            "neighbourhoods, plus a text-derived unbounded-integer predicate on every in-domain answer.",
+    "note": "Trusted: Coq kernel (coqchk in thorough), extraction ExtrOcamlBasic (cross-checked vs vm_compute each "
+            "run), Go harness, python predicate. Environment answers (bandwidth, traffic shaper, channel-update "
+            "availability) are model inputs. ExpectedFee/CalcFee are hand-transcribed (no T1 translator).",
+    "technique": "Coq proof (machine arithmetic = unbounded spec on a stated domain; exhaustive case analysis) + "
+                 "differential correspondence (extracted OCaml + kernel slice) + implementation-side predicate",
+}
+CLAIMED["C07"] = {
+    "design_ref": "DESIGN.md §4 C07, notes/C07.md",
+    "text": "Coq theorems over all interleavings of the memory/disk phases of concurrent circuit-map calls: an incoming "
+            "HTLC is returned in Adds at most once between deletes and only after its durable write, at most one of all "
+            "Close/Fail calls per circuit succeeds per run, a failed Commit/Open transaction leaves memory and disk "
+            "unchanged, restart restores exactly the durable circuits (purge rule for closed channels, restored circuits "
+            "are never re-forwarded: Drop/Fail). Partial: surviving-keystone (trim contiguity) clause of restart and "
+            "DeleteCircuits rollback are decided by correspondence + predicate only. Tied to the real circuitMap over a "
+            "real bbolt DB with a gated kvdb backend that fixes commit/abort and the exact interleaving of 1-3 "
+            "goroutines; return values and 24-key lookups compared after every step.",
+    "note": "Trusted: Coq kernel, harness (gated kvdb backend), python predicate, bbolt transaction atomicity. "
+            "Switch-level settle/fail plumbing is C08's. API-level hazards outside the link protocol are listed in notes/C07.md.",
+    "technique": "Coq proof (invariants over phase-interleaved runs) + deterministic-schedule differential correspondence",
+}
+CLAIMED["C14"] = {
+    "design_ref": "DESIGN.md §4 C14, notes/C14.md",
+    "text": "Proved in Coq on an executable model of TxNotifier for all call sequences within the reorg safety limit: "
+            "the spend height hint never exceeds the spend height, cached spend details are always those of the active "
+            "chain; exactness is refuted when rescan results arrive with no registered client (Coq witnesses; known "
+            "finding C14-F1 reproduced on the real code). The confirmation-side clauses (exact, reorg-before-reconfirm, "
+            "conf hint) and the per-client event-stream clauses are NOT yet proved: they are decided by differential "
+            "correspondence against the real TxNotifier + bbolt HeightHintCache (0 mismatches; exhaustive depth-4 "
+            "histories in thorough) and by a predicate on the implementation trace.",
+    "note": "partial: conf-side invariant not proved; per-request projection; obligations on hints, rescan "
+            "truthfulness and Connect/Notify pairing are stated in the theorems. Trusted: Coq kernel, harness, python predicate.",
+    "technique": "Coq invariant by induction over call sequences + go test -overlay correspondence + implementation-trace predicate",
+}
+
 NOT_CLAIMED = {}
